@@ -264,10 +264,11 @@ func dispatchConnection(conn net.Conn, sta *State) {
 	if err != nil {
 		log.Error(err)
 		if !existing {
-			// this goroutine was going to serve the session it has just created. Leaving the session
-			// registered would make every later connection with this session id (the client retries with
-			// the same id) join a session whose streams nobody accepts
-			user.CloseSession(ci.SessionId, "handshake with the session's first connection failed")
+			// this goroutine was going to serve the session it has just created, and the client's other
+			// connections (opened in parallel, or retried with the same session id) may already have joined
+			// it: the session must be served even though its first connection is lost, or every stream
+			// opened on it would hang. If nothing ever joins, it times out and is unregistered as usual
+			serveSession(sesh, ci, user, sta)
 		}
 		return
 	}
